@@ -232,7 +232,9 @@ func Yield(id int) {
 		return
 	}
 	shared := id >= 0 && Sites[id].Shared
-	if shared && len(t.Hits) < maxHits {
+	if (shared || id == SiteLock || id == SiteFS) && len(t.Hits) < maxHits {
+		// lock operations, channel operations and simulated I/O are places where a real thread is
+		// likely to be descheduled: candidates for preemption as well
 		t.Hits = append(t.Hits, SharedHit{t.Steps, id})
 	}
 	if t.preIdx < len(t.pre) && t.pre[t.preIdx].Step <= t.Steps {
